@@ -11,7 +11,7 @@ PROP = {
             "3 layouts (pretty / compact / random whitespace and comments); distinct = FNV of the multiset of grammar productions used (+ version, + mutation); "
             "non-trivial = >= 12 distinct productions",
     "min_nontrivial": {"quick": 3000, "thorough": 80000},
-    "max_secs": {"quick": 60, "thorough": 800},
+    "max_secs": {"quick": 600, "thorough": 1500},
     "require_clauses": ["valid-parse", "valid-diag", "invalid-rejected", "newer-feature-rejected", "luars-agrees",
                         "version:5.1", "version:5.2", "version:5.3", "version:5.4", "version:5.5"],
     "assumptions": COMMON_ASSUME + [
